@@ -4,6 +4,18 @@ import json, os, subprocess
 HERE = os.path.dirname(os.path.dirname(os.path.abspath(__file__)))
 
 CHECKS = {
+ "C01": ("exploration", "runtime differential monitor: real in-process builds of generated multi-file projects vs an independent reference model of the README semantics (bytes of every output/temp file + verdict)",
+         "Each generated in-domain project is built by the real code and every byte of every output and temp file plus the verdict is compared with the reference model; held on the projects counted in the evidence, with the model's coverage tuples showing which state-machine combinations were reached.",
+         "Trusted: reference model (harness/src/model.rs), domain DESIGN §4.3, /bin/sh + coreutils for the command vocabulary.", "DESIGN.md §5 C01"),
+ "C02": ("exploration", "controlled-schedule runtime monitoring: gate-based controller (hooks) enumerates task run/send orders by DFS re-execution; oracle = bytes vs sequential reference model + observation log + at-most-once trace monitor; plus free-running stress with delays",
+         "All labelled DAGs on <=3 files x requested subsets x 1..3 threads x all gate schedules (coordinator receive eager in quick, fully interleaved as well in thorough), 4-file DAGs and 5-8-file random DAGs sampled; every execution judged on bytes after Txtpp::run returned.",
+         "Trusted: controller serialises at gate granularity (begin gate, end gate, receive); reference model; stale-generation planting makes stale/partial reads visible in bytes.", "DESIGN.md §4.5, §5 C02"),
+ "C03": ("exploration", "controlled-schedule runtime monitoring: logical deadlock predicate + worker-panic events + at-most-once completion over the hook event trace + marker-file counters + output bytes, over all digraphs <=3 files x input aliases x threads x gate schedules",
+         "Termination is decided logically (nothing in flight, everything received, done != total), never by wall clock; exactly-once by the event trace and by command-level markers.",
+         "Trusted: hook placement (task spawn/begin/ready/end, poll, receive); bounded to the explored graph sizes.", "DESIGN.md §4.5, §5 C03"),
+ "C05": ("exploration", "controlled-schedule runtime monitoring: verdict vs cycle reachability computed on the generated digraph, bystander bytes vs reference model, deadlock predicate; all digraphs with self loops <=3 files x requested sets x threads x gate schedules",
+         "For every explored digraph and schedule: a requested file reaching a cycle must fail the run (and the run must return), acyclic projects must not fail, and every required file that cannot reach a cycle must be built exactly as the model says.",
+         "Trusted: reachability computation in gen.rs, reference model; 4 files sampled.", "DESIGN.md §5 C05"),
  # id: (category, technique, text, note, design_ref)
  "C14": ("exploration", "runtime differential monitor: real TagState vs independent reference store, bounded-exhaustive + random op sequences + whole-file runs vs reference model, repeated on fresh hash seeds",
          "Every enumerated create/store/inject sequence and every generated tag file was executed on the real code and compared step by step with an independent reference; held on the executions counted in the evidence, exhaustive within the stated name/line bounds.",
